@@ -9,9 +9,18 @@ use rust_rule_engine::rete::{ActionResult, ActionResults, AlphaNode, FactHandle,
 use serde_json::{json, Value};
 use std::sync::{Arc, Mutex};
 
-const RULES: [(&str, &str, &str, i64, bool); 6] =
-    [("r1", "T1", ">", 1, true), ("r2", "T1", "<=", 1, true), ("r3", "T2", "==", 2, true), ("r4", "T1", ">", 0, false),
-     ("r5", "T1", ">=", 2, true), ("r6", "T1", "<", 3, true)];
+/// (name, fact type, field, operator, literal as written in the alpha node, no-loop); r7 / r8 test the string field `s` of T2
+/// facts against literals with whitespace at the edge ("A " and a single blank)
+const RULES: [(&str, &str, &str, &str, &str, bool); 8] =
+    [("r1", "T1", "a", ">", "1", true), ("r2", "T1", "a", "<=", "1", true), ("r3", "T2", "a", "==", "2", true), ("r4", "T1", "a", ">", "0", false),
+     ("r5", "T1", "a", ">=", "2", true), ("r6", "T1", "a", "<", "3", true), ("r7", "T2", "s", "==", "A ", true), ("r8", "T2", "s", "!=", " ", true)];
+const SVALS: [&str; 4] = ["A", "A ", " ", "B"];
+fn sval(v: Option<&rust_rule_engine::rete::FactValue>) -> String {
+    match v {
+        Some(rust_rule_engine::rete::FactValue::String(s)) => s.clone(),
+        _ => "-".to_string(),
+    }
+}
 
 /// the field `a` is reported in HALVES (2 * value), so that the float values 1.0 / 2.0 / 2.5 stay integers in the trace
 fn halves(v: Option<&rust_rule_engine::rete::FactValue>) -> i64 {
@@ -53,7 +62,7 @@ fn views(e: &IncrementalEngine, issued: &[u64]) -> Value {
     handles.sort();
     let data: Vec<Value> = get.iter().map(|h| {
         let f = wm.get(&FactHandle::new(*h)).unwrap();
-        json!({"h": h, "type": f.fact_type, "a": halves(f.data.get("a"))})
+        json!({"h": h, "type": f.fact_type, "a": halves(f.data.get("a")), "s": sval(f.data.get("s"))})
     }).collect();
     json!({"get": get, "bytype": bytype, "all": all, "handles": handles, "wm": data})
 }
@@ -64,14 +73,14 @@ fn one_history(rng: &mut Rng) -> Value {
     let pure = rng.chance(1, 2);
     let mut ruledesc = vec![];
     let with_r4 = rng.chance(1, 3);
-    for (name, ty, op, c, no_loop) in RULES {
-        if name == "r4" && !with_r4 || (name == "r5" || name == "r6") && rng.chance(1, 2) {
+    for (name, ty, fld, op, c, no_loop) in RULES {
+        if name == "r4" && !with_r4 || (name == "r5" || name == "r6" || name == "r7" || name == "r8") && rng.chance(1, 2) {
             continue;
         }
         let eff = if pure { 0 } else { rng.below(4) }; // 0,1 none; 2 mod; 3 retract
         let v = [0i64, 2, 3][rng.below(3)];
         let lg = log.clone();
-        let node = ReteUlNode::UlAlpha(AlphaNode { field: format!("{}.a", ty), operator: op.to_string(), value: c.to_string() });
+        let node = ReteUlNode::UlAlpha(AlphaNode { field: format!("{}.{}", ty, fld), operator: op.to_string(), value: c.to_string() });
         let rule = TypedReteUlRule {
             name: name.to_string(),
             node,
@@ -80,16 +89,17 @@ fn one_history(rng: &mut Rng) -> Value {
             action: Arc::new(move |facts: &mut TypedFacts, results: &mut ActionResults| {
                 let h = facts.get_fact_handle(ty).map(|h| h.id()).unwrap_or(0);
                 // the engine hands the action "Type.<handle>.<field>" keys for every live fact: the WM view at this moment
-                let mut snap: Vec<Value> = vec![];
+                let mut byh: std::collections::BTreeMap<u64, (String, i64, String)> = std::collections::BTreeMap::new();
                 for (k, val) in facts.get_all() {
                     let p: Vec<&str> = k.split('.').collect();
-                    if p.len() == 3 && p[2] == "a" {
+                    if p.len() == 3 && (p[2] == "a" || p[2] == "s") {
                         if let Ok(id) = p[1].parse::<u64>() {
-                            snap.push(json!({"h": id, "type": p[0], "a": halves(Some(val))}));
+                            let ent = byh.entry(id).or_insert((p[0].to_string(), -99, "-".to_string()));
+                            if p[2] == "a" { ent.1 = halves(Some(val)); } else { ent.2 = sval(Some(val)); }
                         }
                     }
                 }
-                snap.sort_by_key(|x| x["h"].as_u64().unwrap());
+                let snap: Vec<Value> = byh.iter().map(|(id, (ty, a, s))| json!({"h": id, "type": ty, "a": a, "s": s})).collect();
                 lg.lock().unwrap().push(json!({"ev": "fire", "rule": name, "h": h, "wm": snap}));
                 match eff {
                     2 => facts.set(format!("{}.{}.a", ty, h), v),
@@ -111,20 +121,24 @@ fn one_history(rng: &mut Rng) -> Value {
         if r < 4 && issued.len() < 6 {
             let ty = TYPES[[0, 0, 1, 2][rng.below(4)]];
             let (val, a) = gen_a(rng, ty);
+            let s = if ty == "T2" { SVALS[rng.below(4)] } else { "-" };
             let mut t = TypedFacts::new();
             t.set("a", val);
+            t.set("s", s);
             let h = e.insert(ty.to_string(), t).id();
             issued.push(h);
             types.push(ty);
-            events.push(json!({"ev": "insert", "type": ty, "a": a, "h": h, "ok": true, "views": views(&e, &issued)}));
+            events.push(json!({"ev": "insert", "type": ty, "a": a, "s": s, "h": h, "ok": true, "views": views(&e, &issued)}));
         } else if r < 6 && !issued.is_empty() {
             let k = rng.below(issued.len());
             let h = issued[k];
             let (val, a) = gen_a(rng, types[k]);
+            let s = if types[k] == "T2" { SVALS[rng.below(4)] } else { "-" };
             let mut t = TypedFacts::new();
             t.set("a", val);
+            t.set("s", s);
             let ok = e.update(FactHandle::new(h), t).is_ok();
-            events.push(json!({"ev": "update", "h": h, "a": a, "ok": ok, "views": views(&e, &issued)}));
+            events.push(json!({"ev": "update", "h": h, "a": a, "s": s, "ok": ok, "views": views(&e, &issued)}));
         } else if r < 7 && !issued.is_empty() {
             let h = issued[rng.below(issued.len())];
             let ok = e.retract(FactHandle::new(h)).is_ok();
